@@ -293,10 +293,11 @@ theorem absStep_sound {s : St} {tid : Nat} {A A' : Abs} {a : Act} (hc : Conc s t
       have hs : astep s tid (.clr t) = some s := by
         simp only [astep, ht, (hc.own t hm), hp, hc.emp t hte, and_self, if_true]
       exact ⟨s, hs, hc, rfl⟩
-  | incE t c v => simp [absStep] at ha
-  | takeE t c v => simp [absStep] at ha
-  | putE c t v => simp [absStep] at ha
-  | takeF t c => simp [absStep] at ha
+  | incE t c k v => simp [absStep] at ha
+  | takeE t c k v => simp [absStep] at ha
+  | putE c k t v => simp [absStep] at ha
+  | takeF t c k => simp [absStep] at ha
+  | adoptF c k => simp [absStep] at ha
 
 theorem absRun_sound {tid : Nat} (acts : List Act) {s : St} {A A' : Abs} (hc : Conc s tid A)
     (ha : absRun s.n A acts = some A') : ∃ s', runT s tid acts = some s' ∧ Conc s' tid A' ∧ s'.n = s.n := by
